@@ -342,7 +342,9 @@ def r3_convergence(R, sh: SolverShape) -> None:
                 f'`{text(n.ast)[:90]}` computes the movement over `{text(it)}`, not over every entry of `{cur}`: some check values (e.g. the linker\'s own) are never compared',
                 where=sh.where(n))
     # and the test consumes the whole mapping
-    consumed = any(text(x) in (f'{text(d[0].ast.targets[0])}.values()', f'{text(d[0].ast.targets[0])}.items()', text(d[0].ast.targets[0])) for d in dcs for x in ast.walk(conv.ast))
+    conv_read = getattr(sh, 'conv_test_read', None)
+    walked = list(ast.walk(conv.ast)) + (list(ast.walk(conv_read)) if conv_read is not None else [])
+    consumed = any(text(x) in (f'{text(d[0].ast.targets[0])}.values()', f'{text(d[0].ast.targets[0])}.items()', text(d[0].ast.targets[0])) for d in dcs for x in walked)
     R.check(consumed or not dcs, sh.q, 'test-consumes-all', 'the convergence test consumes the whole difference mapping', 'the convergence test does not iterate over all differences', where=sh.where(conv))
 
 
